@@ -4,27 +4,27 @@ SPEC = dict(
     harness="C48_sbufvalue.cc", units=SBUF,
     entries=dict(
         quick=[
-            dict(name="c48_mutate", bounds="2 SBufs in 5 sharing shapes (independent, copy, head slice, tail slice, grown-after-copy) of a 0..3 byte value; ONE of 18 mutators (assign, assign substr of other/own, append SBuf/substr/raw pointer into own or other storage/char/c-string, assign(ptr,n), consume, chop, trim, setAt, clear, reserveSpace/Capacity, reserve, c_str, rawAppendStart+Finish) on either SBuf from either; " + _ARGS + "; " + _ALPHA + "; all SBufs compared with their references afterwards",
+            dict(name="c48_mutate", bounds="2 SBufs in 4 sharing shapes (independent, copy, tail slice, grown-after-copy; thorough also head slice) of a 0..3 byte value; ONE of 18 mutators (assign, assign substr of other/own, append SBuf/substr/raw pointer into own or other storage/char/c-string, assign(ptr,n), consume, chop, trim, setAt, clear, reserveSpace/Capacity, reserve, c_str, rawAppendStart+Finish) on either SBuf from either; " + _ARGS + "; " + _ALPHA + "; all SBufs compared with their references afterwards",
                  reach=["done", "threw", "cow-copy", "cow-avoided"], sample_every=401),
-            dict(name="c48_query", bounds="3 sharing shapes of a 0..3 byte value, other value 0..2 bytes; ONE of find/rfind (char, SBuf), findFirst/LastOf/NotOf, cmp(SBuf,n), cmp(c-string,n), startsWith, ==, <, at, copy, iterators, SBufEqual/SBufStartsWith; " + _ARGS + "; " + _ALPHA,
+            dict(name="c48_query", bounds="2 sharing shapes (independent, tail slice; thorough also copy) of a 0..3 byte value, other value 0..2 bytes; ONE of find/rfind (char, SBuf), findFirst/LastOf/NotOf, cmp(SBuf,n), cmp(c-string,n), startsWith, ==, <, at, copy, iterators, SBufEqual/SBufStartsWith; " + _ARGS + "; " + _ALPHA,
                  reach=["done", "threw"], sample_every=201),
-            dict(name="c48_case", bounds="5 sharing shapes of a 0..2 byte value over {a,A,B} (letters case-split, concrete per path); toLower, toUpper, caseCmp(SBuf,n), caseCmp(c-string,n), startsWith/SBufEqual/CaseInsensitiveSBufEqual ignoring case; n symbolic as above",
+            dict(name="c48_case", bounds="3 sharing shapes (thorough: 5) of a 0..2 byte value over {a,A,B} (letters case-split, concrete per path); toLower, toUpper, caseCmp(SBuf,n), caseCmp(c-string,n), startsWith/SBufEqual/CaseInsensitiveSBufEqual ignoring case; n symbolic as above",
                  reach=["done", "cow-copy", "cow-avoided"], sample_every=401),
             dict(name="c48_seq", bounds="2 SBufs in 3 sharing shapes (copy, tail slice, grown-after-copy) of a 3-byte value, then EVERY sequence of 2 operations from 23 scripted structural operations (share, slice, append self/other/char/raw own pointer, consume into the other, chop, trim, setAt, clear, reserve, c_str, raw append; arguments from {0,1,2, symbolic >64 incl. npos}) on either SBuf; " + _ALPHA + "; all values compared after every step",
                  reach=["done", "threw", "cow-copy", "cow-avoided"], sample_every=601),
-            dict(name="c48_big", bounds="capacity boundary: s0 of 2046..2048 concrete position-dependent bytes (2 KB blob), optionally copied / consumed(3) / consumed into s1; then every pair of 11 growing operations (append char/self/other/own raw pointer/own substr/c-string, assign(own ptr), reserveSpace, raw append, c_str, setAt); values compared at the first 8, last 24 and every 61st byte",
+            dict(name="c48_big", bounds="capacity boundary: s0 of 2046..2048 concrete position-dependent bytes (2 KB blob), optionally copied / consumed(3) / consumed into s1; then one of 11 growing operations (append char/self/other/own raw pointer/own substr/c-string, assign(own ptr), reserveSpace, raw append, c_str, setAt) on either SBuf followed by one of the first 4 on s0; values compared at the first 8, last 24 and every 61st byte",
                  reach=["done", "cow-copy", "cow-avoided", "cow-shift"], sample_every=301),
         ],
         thorough=[
-            dict(name="c48_mutate", bounds="as quick with values of 0..5 bytes", reach=["done", "threw", "cow-copy", "cow-avoided"], sample_every=4001),
-            dict(name="c48_query", bounds="as quick with values of 0..5 bytes", reach=["done", "threw"], sample_every=2001),
-            dict(name="c48_case", bounds="as quick with values of 0..3 bytes", reach=["done", "cow-copy", "cow-avoided"], sample_every=4001),
-            dict(name="c48_seq", bounds="as quick with all 5 sharing shapes and every sequence of 3 operations", reach=["done", "threw", "cow-copy", "cow-avoided"], sample_every=20001),
+            dict(name="c48_mutate", bounds="as quick with values of 0..5 bytes and all 5 shapes", reach=["done", "threw", "cow-copy", "cow-avoided"], sample_every=4001),
+            dict(name="c48_query", bounds="as quick with values of 0..5 bytes and 3 shapes", reach=["done", "threw"], sample_every=2001),
+            dict(name="c48_case", bounds="as quick with values of 0..3 bytes and all 5 shapes", reach=["done", "cow-copy", "cow-avoided"], sample_every=4001),
+            dict(name="c48_seq", bounds="as quick with every sequence of 3 operations, the third from the 12 operations that can expose a stale sharing state (assign, slice, append other/char/raw own pointer, consume, chop, setAt, clear, reserveSpace, c_str, raw append)", reach=["done", "threw", "cow-copy", "cow-avoided"], sample_every=20001),
             dict(name="c48_seq3", bounds="3 SBufs on one blob (value, its copy, its middle slice), every sequence of 2 of the 23 scripted operations on any of them", reach=["done", "threw", "cow-copy", "cow-avoided"], sample_every=601),
-            dict(name="c48_big", bounds="as quick with 2043..2048 bytes", reach=["done", "cow-copy", "cow-avoided", "cow-shift"], sample_every=601),
+            dict(name="c48_big", bounds="as quick with 2043..2048 bytes and every pair of the 11 operations", reach=["done", "cow-copy", "cow-avoided", "cow-shift"], sample_every=601),
         ]),
     timeout=dict(quick=170, thorough=1500),
-    stubs=["memAllocBuf rounding as mem/old_api.cc (2 KB minimum blob)", "debugs() disabled", "libc memchr/memrchr/memcmp/tolower/isupper models (C locale)",
+    stubs=["memAllocBuf rounding as mem/old_api.cc (2 KB minimum blob)", "the static prototype blob all empty SBufs start on is claimed by a dummy SBuf first (as in a running Squid), except in c48_seq3", "debugs() disabled", "libc memchr/memrchr/memcmp/tolower/isupper models (C locale)",
            "harness writes back the (already determined) concrete value of SBuf::off_/len_ and MemBlob::size/capacity after each operation (engine hint, identity natively)"],
     assumptions=["two KNOWN-FINDING candidates are excluded by assumption (see harness): chop()/substr() with pos+n >= 2^32 (n != npos), rawAppendStart(n) with length+n >= 2^32-1"],
     outside="more than 3 SBufs, longer values and longer sequences than stated; values near maxSize (256 MB): only the argument checks of reserveSpace/reserveCapacity/rawAppendStart are exercised with huge arguments, reservations between 4 bytes and maxSize are not executed; Printf/appendf/vappendf, SBuf(std::string), toStdString, std::hash<SBuf>; operator[] out of range (documented undefined); raw pointers outside the source SBuf (caller contract)",
